@@ -53,6 +53,27 @@ let () =
         let progs = Array.init tn (fun i -> if rest.(i) = "-" then "" else rest.(i)) in
         let sched = List.map int_of_string (split_on ',' rest.(tn)) in
         run_cv id tn progs sched
+      | ["IN"; "ABORT"; id; n; os] ->
+        (* round w11c, Model/CondVarAbort.v: n waiters (threads 1..n; OS threads iff os = 1) perform one detail wait each and run
+           until they block; then thread 0 runs abort_all to its end; then everybody runs on.  Printed: abort() calls, waits ended
+           by the yield_aborted exception, entries erased by the waiters themselves, waiters still blocked, waiters finished, the
+           final queue length; sticky = the agents still carrying the abort reason (OS threads: default_agent::aborted_) *)
+        let n = int_of_string n in
+        let isos _ = (os = "1") in
+        let a = nat_of_int 0 in
+        let ls = Array.init (n + 1) (fun t -> ab_locals a (fun t -> if int_of_nat t >= 1 then S O else O) (nat_of_int t)) in
+        let g = ref ab_init in
+        let stepi t = let (g', l') = ab_tstep a isos false (nat_of_int t) !g ls.(t) in g := g'; ls.(t) <- l' in
+        (* the waiters take the internal lock one after the other: 2 rounds each, plus the steps without the lock *)
+        for _ = 1 to 4 * n + 8 do for t = 1 to n do stepi t done done;
+        for _ = 1 to 6 * n + 8 do stepi 0 done;
+        for _ = 1 to 4 * n + 8 do for t = 1 to n do stepi t done done;
+        let sum f = List.fold_left (+) 0 (List.init n (fun i -> f (nat_of_int (i + 1)))) in
+        Printf.printf "OUT ABORT %s aborts=%d thrown=%d selfrem=%d blocked=%d finished=%d queue=%d sticky=%d aborter_done=%d\n" id
+          (sum (fun t -> int_of_nat (!g.aborts t))) (sum (fun t -> int_of_nat (!g.thrown t))) (sum (fun t -> int_of_nat (!g.selfrem t)))
+          (sum (fun t -> if (!g.aag t).blocked then 1 else 0))
+          (List.length (List.filter (fun t -> ls.(t).apc = QDone) (List.init n (fun i -> i + 1))))
+          (List.length !g.aq) (sum (fun t -> if !g.areason t then 1 else 0)) (if ls.(0).apc = ADone then 1 else 0)
       | _ -> ()
     done
   with End_of_file -> ()
